@@ -82,12 +82,13 @@ Proof. exact augment_loop_error_agree. Qed.
 Theorem C07_Process_stages : forall SC ic ins order, Process SC ic ins order = Process_staged SC ic ins order.
 Proof. exact Process_stages. Qed.
 
-(* FixChoice on all trees is a function of the view: equal views before, equal views after -- whatever the
-   measured depth that sets its fuel, cut off or not -- and doing it twice is doing it once *)
-Theorem C07_T2_fix_all_respects_eqv : forall SC F F', forest_eqv F F' -> forest_eqv (fix_all SC F) (fix_all SC F').
+(* FixChoice on all trees is a function of the view: equal views before, equal views after -- its fuel comes from
+   the structural height of the trees (it does not depend on the schema), which may differ between two forests with
+   equal views, and is always enough -- and doing it twice is doing it once *)
+Theorem C07_T2_fix_all_respects_eqv : forall F F', forest_eqv F F' -> forest_eqv (fix_all F) (fix_all F').
 Proof. exact fix_all_respects_eqv. Qed.
 
-Theorem C07_T2_fix_all_idempotent : forall SC X, forest_eqv (fix_all SC (fix_all SC X)) (fix_all SC X).
+Theorem C07_T2_fix_all_idempotent : forall X, forest_eqv (fix_all (fix_all X)) (fix_all X).
 Proof. exact fix_all_idem. Qed.
 
 (* the rounds {retry loop; FixChoice}, from equivalent states and in two visiting orders, are both clean or
@@ -107,7 +108,7 @@ Theorem C07_T2_rounds_reach_fixpoint : forall SC fuel round F err P mods F2 err2
   rounds SC fuel round F err P mods = (F2, err2, P2, mods2) ->
   NoDup (map fst P) -> covers P mods -> (length (all_pending P) <= n_aug SC)%nat ->
   (length (all_pending P) + (match round with O => 1 | _ => 0 end) < fuel)%nat ->
-  (round <> O -> forest_eqv (fix_all SC F) F) ->
+  (round <> O -> forest_eqv (fix_all F) F) ->
   vmaximal SC (flat_of F2) (all_pending P2).
 Proof. exact rounds_final. Qed.
 
